@@ -25,6 +25,10 @@ external c_pread : int -> int64 -> int -> string = "vp_pread"
 external c_reader_init : string -> bool -> bool -> nativeint = "vp_reader_init"
 external c_reader_destroy : nativeint -> unit = "vp_reader_destroy"
 external c_reader_metadata : nativeint -> int64 array = "vp_reader_metadata"
+external c_reader_source : nativeint -> nativeint = "vp_reader_source"
+external c_source_iter : nativeint -> nativeint = "vp_source_iter"
+external c_iter_next : nativeint -> (string * string) option = "vp_iter_next"
+external c_iter_destroy : nativeint -> unit = "vp_iter_destroy"
 
 let engine = "wr"
 let rule = "cases = (writer configuration, add sequence): configurations over 6 compression types x default/explicit levels x block sizes (unset, clamped, 1024..4096) x restart intervals (unset,1,2,3,16,random) x pool 0..4 x foreign prefix (0, small, sparse > 4 GiB); add sequences: sorted families with shared prefixes / prefixes / extensions / empty key / binary bytes / separator-branch pairs / 128- and 16384-byte lengths, fixed-size runs that cut several blocks, entries sized to hit the cut test exactly and +-1, unsorted sequences with duplicates, smaller keys and proper prefixes. Non-trivial: at least 2 accepted entries; distinct by (configuration, sequence)."
@@ -84,6 +88,18 @@ let run_impl (c : wcfg) (ops : (string * string) list) (path : string) : child_e
       let r = c_reader_init path false false in
       let meta = if r = 0n then [||] else (let m = c_reader_metadata r in c_reader_destroy r; m) in
       Marshal.to_string { results; meta; prefix_ok } []
+    end)
+
+(* open the finished file in place (foreign prefix included) with the real reader and iterate it *)
+let read_back (path : string) : child_end =
+  in_child (fun () ->
+    let r = c_reader_init path false false in
+    if r = 0n then "NOOPEN" else begin
+      let it = c_source_iter (c_reader_source r) in
+      let l = ref [] in
+      let rec go () = (match c_iter_next it with Some e -> l := e :: !l; go () | None -> ()) in
+      go (); c_iter_destroy it; c_reader_destroy r;
+      "OK" ^ Marshal.to_string (List.rev !l) []
     end)
 
 let read_table_region path (prefix : int64) : string =
@@ -191,6 +207,17 @@ let check_case acc ~klass ~with_info (c : wcfg) (ops : (string * string) list) =
         | _ -> ());
        (try Sys.remove path2 with _ -> ())
      end;
+     (* C01: the real reader on the finished file, in place *)
+     bump acc "read_back_in_place";
+     (match read_back path with
+      | Exited (_, s) when String.length s >= 2 && String.sub s 0 2 = "OK" ->
+        let got : (string * string) list = Marshal.from_string s 2 in
+        if got <> accepted then
+          viol "[C01]" "opening the finished file and iterating it from the start does not return exactly the accepted entries"
+            (Printf.sprintf "%d entries returned, %d accepted" (List.length got) (List.length accepted))
+      | Exited (_, "NOOPEN") -> viol "[C01]" "the reader does not open the finished file" ""
+      | Signaled (sg, _) -> viol "[C01]" "the reader stopped while iterating the finished file" (Printf.sprintf "signal %d" sg)
+      | Exited (_, s) -> mism "[C01]" "harness error in read_back" s "");
      let x = { ex_block_size = mo.wo_block_size; ex_interval = mo.wo_interval; ex_comp = mo.wo_comp } in
      (match parse_table oracle_decompress (n_of_u64 c.prefix) (nl_of_string bytes) with
       | Inl code -> viol "[C09,C01]" "file does not decode with the independent decoder" (Printf.sprintf "parse error %d" (int_of_n code))
